@@ -27,3 +27,23 @@ Print Assumptions C11_expression_has_coordinate.
 Theorem C11_all_expression_productions_have_coordinates : forall (P: Type) f, ALL P f.
 Proof. exact all_have_coordinates. Qed.
 Print Assumptions C11_all_expression_productions_have_coordinates.
+
+(* identifiers and constants: exactly the token that spells them (proofs/CoordTokens.v).  For every parser state, whenever
+   one of the three producers of identifier / literal nodes returns, the call consumed exactly the next token t of the
+   stream (advance from the same state returns t and the same final state), the node spells tv t and its coordinate is
+   tp t - the position the lexer gave to that very token (C11_provenance: a position of the input) - in the file in force *)
+From PV Require Import CoordTokens.
+Theorem C11_identifier_is_its_token : forall (P: Type) (s: pstate P) N s', p_identifier P s = Ok (N, s') ->
+  exists t, advance P s = Ok (t, s') /\ tk t = K_ID /\ N = VNode C_ID [VStr (tv t)] (Some (mkCoord P (curfile P s') (tp t))).
+Proof. exact identifier_is_its_token. Qed.
+Print Assumptions C11_identifier_is_its_token.
+
+Theorem C11_identifier_or_typeid_is_its_token : forall (P: Type) (s: pstate P) N s', p_identifier_or_typeid P s = Ok (N, s') ->
+  exists t, advance P s = Ok (t, s') /\ (tk t = K_ID \/ tk t = K_TYPEID) /\ N = VNode C_ID [VStr (tv t)] (Some (mkCoord P (curfile P s') (tp t))).
+Proof. exact identifier_or_typeid_is_its_token. Qed.
+Print Assumptions C11_identifier_or_typeid_is_its_token.
+
+Theorem C11_constant_is_its_token : forall (P: Type) (s: pstate P) N s', p_constant P s = Ok (N, s') ->
+  exists t ty, advance P s = Ok (t, s') /\ N = VNode C_Constant [VStr ty; VStr (tv t)] (Some (mkCoord P (curfile P s') (tp t))).
+Proof. exact constant_is_its_token. Qed.
+Print Assumptions C11_constant_is_its_token.
